@@ -214,7 +214,9 @@ class Interp:
     def known_eq(self, a, b):
         r = self.py_eq(a, b)
         if isinstance(r, bool): return r
-        return self.st.branch(r, 'eq')
+        t = self.st.branch(r, 'eq')
+        if t and isinstance(a, (str, SStr)) and isinstance(b, (str, SStr)): self.st.unify(a, b)
+        return t
     def conj(self, rs):
         if any(r is False for r in rs): return False
         zs = [r.z for r in rs if r is not True]
@@ -524,6 +526,7 @@ class Interp:
             return SBool({ast.Lt: za < zb_, ast.LtE: za <= zb_, ast.Gt: za > zb_, ast.GtE: za >= zb_}[t])
         if isinstance(a, (str, SStr)) and isinstance(b, (str, SStr)) and t in (ast.Lt, ast.Gt, ast.LtE, ast.GtE):
             if isinstance(a, str) and isinstance(b, str): return {ast.Lt: a < b, ast.LtE: a <= b, ast.Gt: a > b, ast.GtE: a >= b}[t]
+            if getattr(self, 'abstract_str_order', False): return self._abs_order(t, a, b)
             za, zb_ = self.st.norm(a).z(), self.st.norm(b).z()
             return SBool({ast.Lt: za < zb_, ast.LtE: za <= zb_, ast.Gt: zb_ < za, ast.GtE: zb_ <= za}[t])
         if isinstance(a, PObj):
@@ -537,10 +540,28 @@ class Interp:
                 if t is ast.LtE: return self.disj([l, e])
                 if t is ast.Gt: return self.conj([self.neg(l), self.neg(e)])
                 if t is ast.GtE: return self.neg(l)
-        if isinstance(a, (list, tuple)) and isinstance(b, (list, tuple)) and all(isinstance(x, (str, int)) for x in list(a) + list(b)):
-            return {ast.Lt: a < b, ast.LtE: a <= b, ast.Gt: a > b, ast.GtE: a >= b}[t]
+        if isinstance(a, (list, tuple)) and isinstance(b, (list, tuple)) and type(a) is type(b) and not isinstance(a, OpenList) and not isinstance(b, OpenList):
+            if all(isinstance(x, (str, int)) for x in list(a) + list(b)):
+                return {ast.Lt: a < b, ast.LtE: a <= b, ast.Gt: a > b, ast.GtE: a >= b}[t]
+            # lexicographic comparison with forks on element equality
+            for x, y in zip(a, b):
+                if self.known_eq(x, y): continue
+                strict = ast.Lt() if t in (ast.Lt, ast.LtE) else ast.Gt()
+                return self.compare(strict, x, y)
+            return {ast.Lt: len(a) < len(b), ast.LtE: len(a) <= len(b), ast.Gt: len(a) > len(b), ast.GtE: len(a) >= len(b)}[t]
         if a is None or b is None: self.raise_('TypeError', 'ordering comparison with None')
         raise OutsideSubset(f'compare {t.__name__} {type(a).__name__} {type(b).__name__}')
+    def _abs_order(self, t, a, b):
+        """string order abstracted to an arbitrary strict total order (sound for properties that must hold for every total order):
+        equal strings are not less; for distinct strings one of the two directions is chosen non-deterministically, consistently per pair"""
+        if self.known_eq(a, b): return t in (ast.LtE, ast.GtE)
+        memo = self.__dict__.setdefault('_order_memo', {})
+        ka, kb = repr(self.st.norm(S(a))), repr(self.st.norm(S(b)))
+        if (ka, kb) in memo: lt = memo[(ka, kb)]
+        elif (kb, ka) in memo: lt = not memo[(kb, ka)]
+        else:
+            lt = self.st.pick(2, 'str-order') == 0; memo[(ka, kb)] = lt
+        return lt if t in (ast.Lt, ast.LtE) else not lt
     def _is(self, a, b):
         if isinstance(a, (str, SStr)) and isinstance(b, (str, SStr)): raise OutsideSubset('`is` on strings')
         if isinstance(a, bool) or isinstance(b, bool): return isinstance(a, bool) and isinstance(b, bool) and a == b
@@ -1208,32 +1229,49 @@ def _replace_multi(it, s, old, new):
     if not it.st.branch(occurs, f'replace {old!r} occurs'):
         return simp(sn)
     raise OutsideSubset(f'replace of multi-character needle {old!r} that may overlap symbolic parts')
-def _s_strip(it, s, chars=None):
-    ls = _lit(it, s)
-    if ls is not None: return ls.strip(_lit(it, chars) if chars is not None else None)
-    cs = WS if chars is None else _lit(it, chars)
-    if cs is None: raise OutsideSubset('strip symbolic chars')
-    sn = it.st.norm(s); atoms = list(sn.atoms)
-    def edge_ok(a, first):
-        if isinstance(a, str): return (a[0] if first else a[-1]) not in cs
-        return False
-    # strip literal edges, then require the edge variable not to start/end with a strip char
-    while atoms and isinstance(atoms[0], str) and atoms[0].lstrip(cs) != atoms[0]:
-        atoms[0] = atoms[0].lstrip(cs)
-        if not atoms[0]: atoms.pop(0)
-    while atoms and isinstance(atoms[-1], str) and atoms[-1].rstrip(cs) != atoms[-1]:
-        atoms[-1] = atoms[-1].rstrip(cs)
-        if not atoms[-1]: atoms.pop()
-    for idx in (0, -1):
-        if atoms and isinstance(atoms[idx], Var):
-            a = atoms[idx]
-            if set(cs) <= it.st.excl.get(a.name, set()): continue
-            zre = it.st.excl_re(set())  # any
-            from .sstr import charset, SC
-            ws = charset([(SC.LITERAL, ord(c)) for c in cs])
-            anyc = z3.Star(charset([(SC.NEGATE, None)]))
-            bad = z3.Concat(ws, anyc) if idx == 0 else z3.Concat(anyc, ws)
-            if it.st.branch(SBool(z3.InRe(a.z, bad)), 'strip-edge'): raise OutsideSubset('strip of symbolic string with strippable edge')
+def _strip_side(it, atoms, cs, right):
+    """exact strip of the characters `cs` from one side of a structured string (list of atoms, modified in place)"""
+    from .sstr import charset, SC
+    st = it.st
+    csre = charset([(SC.LITERAL, ord(c)) for c in cs]); notcs = charset([(SC.NEGATE, None)] + [(SC.LITERAL, ord(c)) for c in cs])
+    anyc = z3.Star(charset([(SC.NEGATE, None)]))
+    idx = -1 if right else 0
+    while atoms:
+        a = atoms[idx]
+        if isinstance(a, str):
+            a2 = a.rstrip(cs) if right else a.lstrip(cs)
+            if a2:
+                atoms[idx] = a2; return
+            atoms.pop(idx); continue
+        if set(cs) <= st.excl.get(a.name, set()):
+            # the variable contains no strip character: it stops the stripping unless it is empty
+            if st.branch(SBool(a.z == z3.StringVal('')), 'strip:empty'):
+                st.subst_lit(SStr([a]), ''); atoms.pop(idx); continue
+            return
+        keep = z3.Concat(anyc, notcs) if right else z3.Concat(notcs, anyc)
+        mixed = z3.Concat(anyc, notcs, z3.Plus(csre)) if right else z3.Concat(z3.Plus(csre), notcs, anyc)
+        k = st.choose([('empty', [a.z == z3.StringVal('')]), ('clean-edge', [z3.InRe(a.z, keep)]), ('strippable-edge', [z3.InRe(a.z, mixed)]),
+                       ('all-strip', [z3.InRe(a.z, z3.Plus(csre))])], 'strip')
+        if k == 0: st.subst_lit(SStr([a]), ''); atoms.pop(idx); continue
+        if k == 1: return
+        if k == 3: atoms.pop(idx); continue
+        st.pc.pop()
+        n = len(st.subst); ex = st.excl.get(a.name, set())
+        w = Var(f'{a.name}.{n}w'); t = Var(f'{a.name}.{n}t'); st.excl[w.name] = set(ex); st.excl[t.name] = set(ex)
+        st.do_subst(a, (w, t) if right else (t, w))
+        st.assume(z3.InRe(w.z, keep)); st.assume(z3.InRe(t.z, z3.Plus(csre)))
+        atoms[idx] = w; return
+def _s_strip(it, s, chars=None, sides='lr'):
+    ls = _lit(it, s); lc = _lit(it, chars) if chars is not None else None
+    if chars is not None and lc is None: raise OutsideSubset('strip with symbolic chars')
+    if ls is not None:
+        return ls.strip(lc) if sides == 'lr' else ls.lstrip(lc) if sides == 'l' else ls.rstrip(lc)
+    if not isinstance(s, SStr): it.raise_('TypeError', 'strip on non-string')
+    cs = WS if chars is None else lc
+    atoms = list(it.st.norm(s).atoms)
+    if cs:
+        if 'l' in sides: _strip_side(it, atoms, cs, False)
+        if 'r' in sides: _strip_side(it, atoms, cs, True)
     return simp(SStr(atoms))
 def _s_lower(it, s):
     ls = _lit(it, s)
@@ -1275,8 +1313,7 @@ def _s_encode(it, s, *a): return Opaque('bytes')
 STR_METHODS = {'count': _s_count, 'split': _s_split, 'rsplit': _s_rsplit, 'join': _s_join, 'format': _s_format, 'startswith': _s_startswith, 'endswith': _s_endswith,
                'replace': _s_replace, 'strip': _s_strip, 'lower': _s_lower, 'upper': _s_upper, 'isdigit': _s_isdigit, 'find': _s_find, 'index': _s_index,
                'partition': _s_partition, 'rpartition': _s_rpartition, 'encode': _s_encode,
-               'lstrip': lambda it, s, c=None: _lit(it, s).lstrip(c) if _lit(it, s) is not None else _outside('lstrip symbolic'),
-               'rstrip': lambda it, s, c=None: _lit(it, s).rstrip(c) if _lit(it, s) is not None else _outside('rstrip symbolic'),
+               'lstrip': lambda it, s, c=None: _s_strip(it, s, c, 'l'), 'rstrip': lambda it, s, c=None: _s_strip(it, s, c, 'r'),
                'zfill': lambda it, s, n: _lit(it, s).zfill(n) if _lit(it, s) is not None else _outside('zfill symbolic'),
                'title': lambda it, s: _lit(it, s).title() if _lit(it, s) is not None else _outside('title symbolic'),
                'capitalize': lambda it, s: _lit(it, s).capitalize() if _lit(it, s) is not None else _outside('capitalize symbolic')}
